@@ -52,3 +52,169 @@ func VH_C11a() {
 	vsym.Assert(r.Start >= 0 && r.Length >= 1 && r.Length <= size-r.Start, "C11a/safe-slice")
 	vsym.Assert(r.Start == ws && r.Length == wl, "C11a/window")
 }
+
+// ---- C11b: parseRangeHeader against an independent recogniser ----
+
+func vhIsSpaceASCII(c byte) bool {
+	return c == ' ' || c == '\t' || c == '\n' || c == '\v' || c == '\f' || c == '\r'
+}
+
+// vhTrim trims ASCII white space (the harness keeps header bytes < 0x80).
+func vhTrim(s string) string {
+	for len(s) > 0 && vhIsSpaceASCII(s[0]) {
+		s = s[1:]
+	}
+	for len(s) > 0 && vhIsSpaceASCII(s[len(s)-1]) {
+		s = s[:len(s)-1]
+	}
+	return s
+}
+
+// vhParseDec parses [sign] digits that fit in int64. strict forbids a sign.
+func vhParseDec(s string, strict bool) (v int64, ok bool) {
+	neg := false
+	if len(s) > 0 && (s[0] == '+' || s[0] == '-') {
+		if strict {
+			return 0, false
+		}
+		neg = s[0] == '-'
+		s = s[1:]
+	}
+	if len(s) == 0 || len(s) > 18 {
+		return 0, false
+	}
+	for i := 0; i < len(s); i++ {
+		c := s[i]
+		if c < '0' || c > '9' {
+			return 0, false
+		}
+		v = v*10 + int64(c-'0')
+	}
+	if neg {
+		v = -v
+	}
+	return v, true
+}
+
+// vhRecognise: ok=false means "not a (lenient) single range"; multi reports a comma.
+func vhRecognise(tail string, strict bool) (req ObjectRangeRequest, ok bool, multi bool) {
+	for i := 0; i < len(tail); i++ {
+		if tail[i] == ',' {
+			return req, false, true
+		}
+	}
+	r := vhTrim(tail)
+	dash := -1
+	for i := 0; i < len(r); i++ {
+		if r[i] == '-' {
+			dash = i
+			break
+		}
+	}
+	if dash < 0 {
+		return req, false, false
+	}
+	first, last := vhTrim(r[:dash]), vhTrim(r[dash+1:])
+	if first == "" {
+		n, pok := vhParseDec(last, strict)
+		if !pok {
+			return req, false, false
+		}
+		return ObjectRangeRequest{FromEnd: true, End: n}, true, false
+	}
+	a, pok := vhParseDec(first, strict)
+	if !pok || a < 0 {
+		return req, false, false
+	}
+	if last == "" {
+		return ObjectRangeRequest{Start: a, End: RangeNoEnd}, true, false
+	}
+	b, pok := vhParseDec(last, strict)
+	if !pok || a > b {
+		return req, false, false
+	}
+	return ObjectRangeRequest{Start: a, End: b}, true, false
+}
+
+// VH_C11b: every header "bytes=" + tail (tail up to maxtail free ASCII bytes).
+func VH_C11b() {
+	n := vsym.Choice("taillen", vsym.Param("maxtail", 3)+1)
+	tail := vsym.String("tail", n)
+	for i := 0; i < n; i++ {
+		vsym.Assume(tail[i] < 0x80)
+	}
+	unit := "bytes="
+	if vsym.Choice("unit", 2) == 1 {
+		// a different unit: one free byte replaces the 'b'
+		unit = vsym.String("u", 1) + "ytes="
+		vsym.Assume(unit[0] != 'b')
+	}
+	got, err := parseRangeHeader(unit + tail)
+	if unit != "bytes=" {
+		vsym.Assert(err == ErrInvalidRange, "C11b/non-bytes-unit-rejected")
+		vsym.Reach("C11b/unit")
+		return
+	}
+	lenient, lok, multi := vhRecognise(tail, false)
+	_, sok, _ := vhRecognise(tail, true)
+	if err != nil {
+		vsym.Reach("C11b/rejected")
+		vsym.Assert(!sok, "C11b/valid-header-rejected")
+		code := ErrorCode("")
+		if e, isErr := err.(Error); isErr {
+			code = e.ErrorCode()
+		}
+		if multi {
+			vsym.Assert(code == ErrNotImplemented || code == ErrInvalidRange, "C11b/multi-range-error-code")
+		} else {
+			vsym.Assert(err == ErrInvalidRange, "C11b/malformed-gives-InvalidRange")
+		}
+		return
+	}
+	vsym.Reach("C11b/accepted")
+	vsym.Assert(got != nil, "C11b/nil-request")
+	if got == nil {
+		return
+	}
+	vsym.Assert(lok && !multi, "C11b/malformed-header-accepted")
+	if lok {
+		vsym.Assert(got.FromEnd == lenient.FromEnd && got.Start == lenient.Start && got.End == lenient.End, "C11b/parsed-values")
+	}
+	// post-condition that C11a assumes
+	if !got.FromEnd {
+		vsym.Assert(got.Start >= 0 && (got.End == RangeNoEnd || got.End >= got.Start), "C11b/postcondition")
+	}
+}
+
+// VH_C11bt: boundary templates around int64 limits with free digits.
+func VH_C11bt() {
+	// d1..d3 replace the last three digits of 9223372036854775807
+	d := vsym.String("d", 3)
+	for i := 0; i < 3; i++ {
+		vsym.Assume(d[i] >= '0' && d[i] <= '9')
+	}
+	big := "9223372036854775" + d
+	form := vsym.Choice("form", 4)
+	var hdr string
+	switch form {
+	case 0:
+		hdr = "bytes=0-" + big
+	case 1:
+		hdr = "bytes=" + big + "-"
+	case 2:
+		hdr = "bytes=-" + big
+	default:
+		hdr = "bytes=" + big + "-" + big
+	}
+	got, err := parseRangeHeader(hdr)
+	fits := d[0] < '8' || (d[0] == '8' && (d[1] == '0' && d[2] <= '7'))
+	if err != nil {
+		vsym.Reach("C11bt/rejected")
+		vsym.Assert(err == ErrInvalidRange, "C11bt/error-is-InvalidRange")
+		vsym.Assert(!fits, "C11bt/valid-header-rejected")
+		return
+	}
+	vsym.Reach("C11bt/accepted")
+	vsym.Assert(fits, "C11bt/overflowing-number-accepted")
+	vsym.Assert(got != nil, "C11bt/nil")
+}
